@@ -69,3 +69,48 @@ pub fn newton_margins(t: &mut Tape, c: &mut Case) -> CaseResult {
     c.nontrivial(true);
     Ok(())
 }
+
+/// Exact multiples of the divisor with a quotient close to 2^64 (seeding round 8, C11-L): the *second*
+/// correction of Möller–Granlund `div2by1` (`r >= d` after the first fix-up) with `r == d` exactly needs
+/// a two-word dividend that is an exact multiple q*d whose reciprocal estimate is one too low — about
+/// 1 % of the exact multiples with q in the top 2^-k fraction of the word, but 2^-64 for independent
+/// operands. One case = 64 (d, q) pairs: d normalised (or the same d de-normalised by a few bits),
+/// q = !(random >> k), dividend q*d + r with r in {0, 1, d-1, random}, as U128 and — followed by one more
+/// limb, so that a wrong running remainder is consumed by the next step — as U192. Oracle: u128 / BigUint.
+pub fn exact_multiples(t: &mut Tape, c: &mut Case) -> CaseResult {
+    use crypto_bigint::U192;
+    use num_bigint::BigUint;
+    let mut corr = 0u64;
+    let low = t.u64();
+    for i in 0..64u32 {
+        let dn = t.u64() | (1 << 63);
+        let k = t.range(1, 63) as u32;
+        let q = if i % 8 == 7 { t.u64() } else { !(t.u64() >> k) };
+        let s = if i % 4 == 3 { t.range(1, 62) as u32 } else { 0 };
+        let d = (dn >> s).max(1);
+        let r = match t.below(4) {
+            0 => 0,
+            1 => 1.min(d - 1),
+            2 => d - 1,
+            _ => t.u64() % d,
+        };
+        let x = (q as u128) * (d as u128) + r as u128;
+        if crate::sim::limb_sim(&[x as u64, (x >> 64) as u64], d).second > 0 {
+            corr += 1;
+        }
+        check_divisor(d, x, "exact multiple q*d + r with q close to 2^64")?;
+        let nz = NonZero::new(Limb(d)).unwrap();
+        let n3 = U192::from_words([low, x as u64, (x >> 64) as u64]);
+        let big = (BigUint::from(x) << 64) + BigUint::from(low);
+        let (wq, wr) = (&big / BigUint::from(d), &big % BigUint::from(d));
+        let (gq, gr) = total("U192::div_rem_limb", || n3.div_rem_limb(nz))?;
+        vensure!(ubig(&gq) == wq && BigUint::from(gr.0) == wr, "U192::div_rem_limb([{low:#x}, q*d + r]) / {d:#x}: got ({}, {:#x}), want ({wq:#x}, {wr:#x})", hex(gq.as_words()), gr.0);
+        let gr2 = total("U192::rem_limb", || n3.rem_limb(nz))?;
+        vensure!(BigUint::from(gr2.0) == wr, "U192::rem_limb([{low:#x}, q*d + r]) % {d:#x}: got {:#x}, want {wr:#x}", gr2.0);
+    }
+    c.num("low limb", low);
+    c.num("pairs taking the second 2-by-1 correction (model)", corr);
+    c.label("limb divisor: exact multiples q*d + r with q close to 2^64");
+    c.nontrivial(corr > 0);
+    Ok(())
+}
